@@ -37,6 +37,17 @@ VECS = [tuple(F(c) for c in v) for v in [(0, 0, 0), (1, 0, 0), (0, -2, 0), (0, 0
     (F(1, 2), F(-3, 2), F(1)), (F(-1, 4), F(1, 2), F(3, 4))
 ]
 
+_COMMON = ("fresh", "fresh", "fresh", "copy", "moved", "moved-ret", "inter")
+PROVS = {  # how the object a history starts from was obtained (constructor form, negation, copy, earlier move, intersection result)
+    "P": _COMMON,
+    "L": _COMMON + ("form1", "form2"),
+    "PL": _COMMON + ("form1", "form2", "form3", "neg", "negneg"),
+    "S": _COMMON + ("form1",),
+    "H": _COMMON + ("form1",),
+    "G": _COMMON + ("form1", "form2", "neg", "neg", "negneg"),
+    "K": _COMMON + ("form1", "form1", "form2", "form3"),
+}
+
 IN_SUPPORT = {  # candidate kind -> container kinds for which `x in S` is supported
     "P": ("L", "H", "S", "PL", "G", "K"),
     "S": ("L", "H", "S", "PL", "G", "K"),
@@ -114,13 +125,17 @@ class Executor(object):
         # init is a descriptor, or (descriptor, "i"|"f") to build receiver, fresh objects and move vectors from
         # Python ints wherever the exact value is integral (the documentation's examples use ints)
         self.ct = float
+        self.prov = "fresh"
         if isinstance(init[0], tuple):
             self.ct = {"i": int, "f": float}[init[1]]
+            if len(init) > 2:
+                self.prov = init[2]
             init = init[0]
         self.model = init
         self.kind = init[0]
         self.cur = None
         self.ret = None
+        self.bystanders = []  # earlier receivers / returned objects: only their self-consistency is observed
         self.moves = 0
         self.queries_after_move = 0
         self.facts = {"kind": self.kind}
@@ -135,9 +150,42 @@ class Executor(object):
     def fresh(self):
         return B.build(self.model, self.ct)
 
+    def initial(self):
+        """the object the history starts from, by provenance: every variant denotes the model's set"""
+        G = lib()
+        pv = self.prov
+        if pv.startswith("form"):
+            return B.build(self.model, self.ct, int(pv[4:]))
+        o = self.fresh()
+        if pv == "copy":
+            return self.guard("deepcopy", lambda: copy.deepcopy(o))
+        if pv == "neg":
+            return self.guard("negation", lambda: -o)
+        if pv == "negneg":
+            return self.guard("negation", lambda: -(-o))
+        if pv in ("moved", "moved-ret"):
+            v = VECS[4]
+            base = B.build(X.translate(self.model, X.mul(F(-1), v)), self.ct)
+            r = self.guard("move", lambda: base.move(B.vec(v, self.ct)))
+            return base if pv == "moved" else r
+        if pv == "inter":
+            o2 = self.fresh()
+            r = self.guard("intersection(x, x)", lambda: G.intersection(o, o2))
+            if type(r) is not type(o):
+                raise Fail("intersection(x, x) [%s] is a %s" % (self.kind, type(r).__name__), {"model": self.model}, self.facts)
+            return r
+        return o
+
     def start(self):
-        self.cur = self.fresh()
+        self.facts["provenance"] = self.prov
+        self.cur = self.initial()
         self.invariant("initial")
+
+    def retire(self, o):
+        if o is None or any(o is b for b in self.bystanders) or o is self.cur:
+            return
+        self.bystanders.append(o)
+        del self.bystanders[:-4]
 
     def targets(self):
         t = [("receiver", self.cur)]
@@ -152,20 +200,27 @@ class Executor(object):
         if name == "move":
             vi, follow = step[1], step[2]
             v = VECS[vi % len(VECS)]
+            self.retire(self.ret)
             self.ret = self.guard("move", lambda: self.cur.move(B.vec(v, self.ct)))
             self.model = X.translate(self.model, v)
             self.moves += 1
             self.invariant("after move")
             if follow:
+                old = self.cur
                 self.cur = self.ret
                 self.ret = None
+                self.retire(old)
         elif name == "deepcopy":
+            old = self.cur
             self.cur = self.guard("deepcopy", lambda: copy.deepcopy(self.cur))
+            self.retire(self.ret)
             self.ret = None
+            self.retire(old)
             self.invariant("after deepcopy")
         elif name == "back":
             v = VECS[step[1] % len(VECS)]
-            self.guard("move", lambda: self.cur.move(B.vec(v, self.ct)))
+            self.retire(self.ret)
+            self.retire(self.guard("move", lambda: self.cur.move(B.vec(v, self.ct))))
             self.ret = self.guard("move back", lambda: self.cur.move(B.vec(X.mul(F(-1), v), self.ct)))
             self.moves += 2
             self.invariant("after move by v and -v")
@@ -259,6 +314,74 @@ class Executor(object):
                 if not _num_eq(self.guard("area", o.area), X.surface_area(model)) or not _num_eq(self.guard("length", o.length), X.perimeter(model)):
                     raise Fail("%s [K]: area/length changed" % tag, {}, self.facts)
 
+        for i, b in enumerate(self.bystanders):
+            self.self_consistent(b, "an earlier receiver/returned object (%s)" % when)
+
+    def self_consistent(self, o, tag):
+        """what must hold for any live object wherever it is: its derived public state agrees with its defining
+        public state (nothing is assumed about the position of objects that may alias the receiver)"""
+        G = lib()
+        k = self.kind
+
+        def plane_ok(pl, pts, what):
+            n = B._v3(pl.n)
+            q = B._xyz(pl.p)
+            for pnt in pts:
+                w = (pnt[0] - q[0], pnt[1] - q[1], pnt[2] - q[2])
+                if abs(B._fdot(w, n)) > 1e-9 * max(1.0, B._fnorm(n)):
+                    raise Fail("%s [%s]: %s" % (tag, k, what), {"plane": B.denote(pl), "point": pnt}, self.facts)
+
+        def polygon_ok(g, what):
+            pts = [B._xyz(p) for p in g.points]
+            plane_ok(g.plane, pts, what + ": a vertex is off the polygon's own plane")
+            m = len(pts)
+            mean = tuple(sum(p[i] for p in pts) / m for i in range(3))
+            if not B._close(B._xyz(g.center_point), mean, 1e-9):
+                raise Fail("%s [%s]: %s: center_point is not the centre of its own vertices" % (tag, k, what), {"got": B._xyz(g.center_point), "expected": mean}, self.facts)
+
+        if k == "PL":
+            gf = self.guard("general_form", o.general_form)
+            q = B._xyz(o.p)
+            d = float(gf[3])
+            if abs(float(gf[0]) * q[0] + float(gf[1]) * q[1] + float(gf[2]) * q[2] - d) > 1e-9 * max(1.0, abs(d)):
+                raise Fail("%s [PL]: general_form() does not contain the plane's own point" % tag, {"general_form": repr(gf), "p": q}, self.facts)
+            if self.guard("in", lambda: o.p in o) is not True:
+                raise Fail("%s [PL]: the plane does not contain its own point" % tag, {"p": q}, self.facts)
+            pn = self.guard("point_normal", o.point_normal)
+            if self.guard("in", lambda: G.Point(pn[0]) in o) is not True:
+                raise Fail("%s [PL]: the plane does not contain the point of its point_normal() form" % tag, {}, self.facts)
+        elif k in ("S", "H"):
+            a = B._xyz(o.start_point if k == "S" else o.point)
+            if k == "S":
+                b = B._xyz(o.end_point)
+                d = (b[0] - a[0], b[1] - a[1], b[2] - a[2])
+            else:
+                d = B._v3(o.vector)
+            why = B.same_set(("L", a, d), B.denote(o.line))
+            if why:
+                raise Fail("%s [%s]: cached .line does not pass through the object's own points: %s" % (tag, k, why), {"line": B.denote(o.line)}, self.facts)
+            ends = (o.start_point, o.end_point) if k == "S" else (o.point,)
+            for e_ in ends:
+                if self.guard("in", lambda: e_ in o) is not True:
+                    raise Fail("%s [%s]: the object does not contain its own end point" % (tag, k), {}, self.facts)
+        elif k == "G":
+            polygon_ok(o, "polygon")
+            for v_ in o.points:
+                if self.guard("in", lambda: v_ in o) is not True:
+                    raise Fail("%s [G]: the polygon does not contain its own vertex" % tag, {"vertex": B._xyz(v_)}, self.facts)
+        elif k == "K":
+            allp = set()
+            for f in o.convex_polygons:
+                polygon_ok(f, "face")
+                for v_ in f.points:
+                    allp.add(tuple(round(c, 9) + 0.0 for c in B._xyz(v_)))
+            have = set(tuple(round(c, 9) + 0.0 for c in B._xyz(v_)) for v_ in o.point_set)
+            if allp != have:
+                raise Fail("%s [K]: point_set is not the set of the faces' vertices" % tag, {"faces": sorted(allp), "point_set": sorted(have)}, self.facts)
+            for v_ in o.point_set:
+                if self.guard("in", lambda: v_ in o) is not True:
+                    raise Fail("%s [K]: the polyhedron does not contain its own vertex" % tag, {"vertex": B._xyz(v_)}, self.facts)
+
     # ---- queries
     def query(self, other):
         G = lib()
@@ -334,6 +457,8 @@ def account(case, ctx):
     _h, init, steps = case
     if isinstance(init[0], tuple):
         ctx.cls("ctype:" + init[1])
+        if len(init) > 2:
+            ctx.cls("provenance:" + init[2])
     init = _desc(init)
     moves = 0
     q_after = 0
@@ -390,10 +515,11 @@ def machine_for(kind):
         import sys
 
         prop = sys.modules[__name__]
+        prov = st.sampled_from(PROVS[kind])
         if kind in ("G", "K"):
-            init = st.tuples(GB.body(kind), st.sampled_from(("f", "f", "i")))
+            init = st.tuples(GB.body(kind), st.sampled_from(("f", "f", "i")), prov)
         else:
-            init = st.tuples(gen.free_flat(kind), st.sampled_from(("f", "f", "i")))
+            init = st.tuples(gen.free_flat(kind), st.sampled_from(("f", "f", "i")), prov)
         qargs = (
             st.sampled_from(("P", "P", "L", "H", "S", "S", "PL", "PL", "G", "K")),
             st.integers(0, 30), st.integers(0, 30), st.integers(0, 30), st.integers(0, 30),
